@@ -368,6 +368,39 @@ class Endpoints:
                     if isinstance(rv, ast.Tuple):
                         return ("T", tuple(sub.v(x) for x in rv.elts))
                     return sub.v(rv) if rv is not None else SC
+                # a helper with branches: every returning path is evaluated on its own, the results are joined (an endpoint is known to be zero
+                # only if it is on every path)
+                from .paths import enumerate_paths
+                vals = []
+                try:
+                    paths = [p_ for p_ in enumerate_paths(body) if p_.end == "return"]
+                except Exception:
+                    paths = []
+                for p_ in paths[:32]:
+                    s2 = Endpoints(self.M, fn)
+                    s2.depth = sub.depth
+                    s2.env = dict(sub.env)
+                    s2.run_block(p_.stmts())
+                    rv = p_.end_node.value
+                    if rv is None:
+                        vals.append(SC)
+                    elif isinstance(rv, ast.Tuple):
+                        vals.append(("T", tuple(s2.v(x) for x in rv.elts)))
+                    else:
+                        vals.append(s2.v(rv))
+                if vals and len(paths) <= 32:
+                    def join(a_, b_):
+                        if a_ == b_:
+                            return a_
+                        if isinstance(a_, tuple) and isinstance(b_, tuple) and a_[:1] == ("T",) and b_[:1] == ("T",) and len(a_[1]) == len(b_[1]):
+                            return ("T", tuple(join(x_, y_) for x_, y_ in zip(a_[1], b_[1])))
+                        if a_ == SC or b_ == SC or a_[:1] == ("T",) or b_[:1] == ("T",):
+                            return (ANY_, ANY_)
+                        return (ZERO_ if a_[0] == ZERO_ and b_[0] == ZERO_ else ANY_, ZERO_ if a_[1] == ZERO_ and b_[1] == ZERO_ else ANY_)
+                    out_ = vals[0]
+                    for v_ in vals[1:]:
+                        out_ = join(out_, v_)
+                    return out_
                 return (ANY_, ANY_)
             if tgt[0] == "ext" and short == "linspace" and len(e.args) >= 2:
                 z = lambda n: isinstance(n, ast.Constant) and n.value == 0
